@@ -56,6 +56,7 @@ def _trim(o, n=2000):
 
 
 _CONFIRMED = {}
+_DISMISSED = {}
 WATCHDOG = __import__("re").compile(r"hang|no-termination|[Tt]imeout|harness-error|does not converge|step")
 
 
@@ -67,6 +68,8 @@ def _confirm(prop, hit):
         return hit
     if _CONFIRMED.get((prop, hit["stream"]), 0) >= 2:
         return hit          # two watchdog hits of this stream already recurred with generous limits: the limits are not the cause
+    if _DISMISSED.get((prop, hit["stream"]), 0) >= 4:
+        return None         # four in a row did not recur: slow cases under load, not worth minutes of re-runs each
     sm = C.load_stream(hit["stream"])
     env = dict(getattr(sm, "ENV", None) or {})
     env["VERIF_CASE_TIMEOUT"] = str(5 * int(env.get("VERIF_CASE_TIMEOUT", "20")))
@@ -77,6 +80,7 @@ def _confirm(prop, hit):
     except Exception:
         return hit
     if not again:
+        _DISMISSED[(prop, hit["stream"])] = _DISMISSED.get((prop, hit["stream"]), 0) + 1
         print(f"[{prop}] note: {hit['key']} did not recur with generous limits (harness limit, not a violation)")
         return None
     _CONFIRMED[(prop, hit["stream"])] = _CONFIRMED.get((prop, hit["stream"]), 0) + 1
